@@ -17,7 +17,7 @@
    gaps).  The attempt to prove it exposed a genuine defect - vectors of zero-byte elements
    compare equal whatever their size - which is repaired (DESIGN.md, section 7, F28). *)
 From Coq Require Import ZArith List Bool.
-From Cntgs Require Import Base Layout Mem Vector Proxy World Spec Rep CompareThm ElemThm CmpContent.
+From Cntgs Require Import Base Layout Mem Vector Proxy World Spec Rep CompareThm ElemThm CmpContent FastEq.
 Import ListNotations.
 Local Open Scope Z_scope.
 
@@ -40,6 +40,25 @@ Theorem C13_vector_equality_elementwise_is_content_equality : forall L, wf_plist
   (vec_equal L v1 v2 = true <-> l1 = l2).
 Proof. exact vec_equal_content_elementwise. Qed.
 Print Assumptions C13_vector_equality_elementwise_is_content_equality.
+
+(* ... and on the whole-buffer path (all value types memcmp-able, IS_PADDING_FREE, equal
+   fixed sizes): the bytes [data_begin(), data_end()) are exactly the bytes of the stored
+   tuples, without any gap (tight packing is part of the representation invariant), and they
+   determine the tuples *)
+Theorem C13_vector_equality_fast_path_is_content_equality : forall L, wf_plist L = true -> padfree L = true ->
+  forall v1 l1 v2 l2, Rep L v1 l1 -> Rep L v2 l2 ->
+  (forallb eqm L && padfree L && list_eqb (v_fixed v1) (v_fixed v2)) = true ->
+  (vec_equal L v1 v2 = true <-> l1 = l2).
+Proof. exact vec_equal_content_fast. Qed.
+Print Assumptions C13_vector_equality_fast_path_is_content_equality.
+
+(* BOTH paths: in every pair of represented states - hence after any two valid histories
+   (C01), whatever the capacities, junk, allocators or histories - vector == is equality of
+   the two lists of tuples, nothing else *)
+Theorem C13_vector_equality_is_content_equality : forall L v1 l1 v2 l2, wf_plist L = true ->
+  Rep L v1 l1 -> Rep L v2 l2 -> (vec_equal L v1 v2 = true <-> l1 = l2).
+Proof. exact vec_equal_content. Qed.
+Print Assumptions C13_vector_equality_is_content_equality.
 
 Theorem C13_vector_equality_reflexive : forall L v, vec_equal L v v = true.
 Proof. exact vec_equal_refl. Qed.
